@@ -385,9 +385,10 @@ def run(ctx):
         for b in F.all_bodies(crate):
             panics = [c for c in b.calls() if c.diverges and c.name in ("panic_fmt", "panic", "begin_panic", "panic_display", "panic_str")]
             stores = [c for c in b.calls() if c.name in STORES and any(k in (c.def_ or "") for k in ("HashMap", "BTreeMap", "Option", "mem::", "RefCell", "Cell"))]
+            if stores:
+                nrej += 1      # floor = bodies that store into a shared map / cell at all: the guarded store may live in a helper (A17-3)
             if not panics or not stores:
                 continue
-            nrej += 1
             from rules.c12 import controlling_switches, discr_def
             VAC = ("contains_key", "is_some", "is_none", "get", "is_empty", "get_mut")
             unguarded = []
@@ -410,7 +411,7 @@ def run(ctx):
                       "the rejection is decided after the overwrite, so a rejected installation has already replaced the sink that was installed "
                       "first" % (unguarded[0].name if unguarded else ""),
                       "%d store(s), %d explicit panic(s); every store that can be followed by the panic is control-dependent on a vacancy test" % (len(stores), len(panics)))
-    ctx.floor("R17.3", "installing bodies that can reject (store + explicit panic)", nrej, 1)
+    ctx.floor("R17.3", "bodies storing into a shared map / cell of the sink globals", nrej, 1)
 
     # R17.5 restore on drop
     attach_handle_rules(ctx, F, "R17.5")
